@@ -19,6 +19,7 @@ package sfnt
 import (
 	"fmt"
 	"strings"
+	"unicode"
 
 	"seehuhn.de/go/postscript/type1/names"
 
@@ -94,6 +95,10 @@ func (f *Font) MakeGlyphNames() []string {
 
 	if cmap, _ := f.CMapTable.GetBest(); cmap != nil {
 		a, b := cmap.CodeRange()
+		if b > unicode.MaxRune {
+			// codes beyond the Unicode range have no names
+			b = unicode.MaxRune
+		}
 		for r := a; r <= b; r++ {
 			gid := cmap.Lookup(r)
 			if int(gid) >= len(glyphNames) {
